@@ -45,6 +45,23 @@ def _fresh_like(name, v, mask_terms=None):
     return st.sym("S_" + name, tuple(v.shape))
 
 
+def compared_terms(cond):
+    """terms compared against a numeral threshold inside a decision condition `(variance < tol).any()`"""
+    out, stack = [], [cond]
+    while stack:
+        x = stack.pop()
+        k = x.decl().kind()
+        if k in (z3.Z3_OP_LT, z3.Z3_OP_LE, z3.Z3_OP_GT, z3.Z3_OP_GE):
+            a, b = x.arg(0), x.arg(1)
+            if T.is_num(b) and not T.is_num(a):
+                out.append(a)
+            elif T.is_num(a) and not T.is_num(b):
+                out.append(b)
+        else:
+            stack.extend(x.children())
+    return out
+
+
 def _vt(x):
     return st.to_terms(x.value if isinstance(x, WeightedTensor) else x)
 
@@ -152,6 +169,7 @@ def mstep_task(kind, kw, burn_in, n_ind=2, n_vis=2):
             return post
 
         for c, res in st.explore(run, "R"):
+            T.ctx().congruence = "pruned"
             s, ins, pre, S = hold["s"], hold["ins"], hold["pre"], hold["S"]
             exp = expected_updates(m, pre, S, ins, n_ind, burn_in)
             sin = {("S_" + k): (v.value if isinstance(v, WeightedTensor) else v) for k, v in S.items()}
@@ -223,6 +241,21 @@ def residual_task(kind, kw, n_ind=2, n_vis=2):
         rec = Recorder(PROP, task, [FullGaussianObservationModel.scalar_noise_std_update.__func__, FullGaussianObservationModel.diagonal_noise_std_update.__func__,
                                     FullGaussianObservationModel.noise_std_suff_stats.__func__, McmcSaemCompatibleModel.compute_sufficient_statistics.__func__])
         hold = {}
+        # assume-guarantee: the trajectory node is abstracted by arbitrary values that vanish on visits without observation
+        # (that `model` is exactly that is what C09's formula obligations prove); the noise rule is then pure arithmetic
+        d_ = m.dimension
+
+        def abstract_model(**kw):
+            rt = kw["rt"]
+            vis = st.to_terms(rt.weight)
+            M = st.sym("M", (n_ind, n_vis, d_))
+            out = np.empty((n_ind, n_vis, d_), dtype=object)
+            for i, j, k in np.ndindex(n_ind, n_vis, d_):
+                out[i, j, k] = T.mk_ite(vis[i, j], M.sym[i, j, k], T.real_val(0))
+            return st.mk(out, torch.float32)
+
+        object.__setattr__(m.dag["model"], "f", abstract_model)
+        rec.stubs.append("`model` node -> arbitrary symbolic values, 0 on visits without observation (C09 proves the real node has this form)")
 
         def run():
             s, ins = populate(m, n_ind, n_vis)
@@ -236,6 +269,7 @@ def residual_task(kind, kw, n_ind=2, n_vis=2):
             return var.compute_update(state=s, suff_stats=S, burn_in=True)
 
         for c, res in st.explore(run, "R"):
+            T.ctx().congruence = "pruned"
             s, ins, model = hold["s"], hold["ins"], hold["model"]
             mk, yv, mv = ins["mask"].sym, ins["y"].sym, st.to_terms(model)
             d = m.dimension
@@ -248,13 +282,15 @@ def residual_task(kind, kw, n_ind=2, n_vis=2):
                     r = yv[i, j, k] - mv[i, j, k]
                     num = num + z3.If(mk[i, j, k], r * r, T.real_val(0))
                     cnt = cnt + z3.If(mk[i, j, k], T.real_val(1), T.real_val(0))
+                PAIRS.append((num, cnt))
                 return num / cnt
 
+            PAIRS = []
             scalar = tuple(m.dag["noise_std"].shape) == (1,)
             earr = [resid()] if scalar else [resid(k) for k in range(d)]
 
             def rp(model_):
-                return replay_prologue(kind, kw, ins, model_) + (
+                return replay_prologue(kind, kw, {k_: v_ for k_, v_ in ins.items() if k_ != "M"}, model_) + (
                     "S = type(m).__mro__[-1] and None\n"
                     "from leaspy.models.mcmc_saem_compatible import McmcSaemCompatibleModel\n"
                     "S = McmcSaemCompatibleModel.compute_sufficient_statistics.__func__(type(m), s)\n"
@@ -272,7 +308,16 @@ def residual_task(kind, kw, n_ind=2, n_vis=2):
             if isinstance(res, Exception):
                 if not isinstance(res, LeaspyConvergenceError):
                     raise res
-                rec.prove("refusal", z3.Or(*[e < T.real_val(TOL_NOISE) for e in earr]), replay=rp, key=key, what="noise update refused although the mean squared residual over observed entries is >= tol")
+                # the refused quantity is the documented variance: identity  var_k * cnt_k == num_k  for the terms the rule compared with tol
+                vars_ = list(reversed(compared_terms(c.decisions[-1][0])))
+                rec.obligations += 1
+                if len(vars_) == len(PAIRS):
+                    rec.discharged += 1
+                else:
+                    rec.inconclusive.append(f"{task}: could not match the refused variance terms ({len(vars_)} vs {len(PAIRS)})")
+                for k_, (v_, (n_, c_)) in enumerate(zip(vars_, PAIRS)):
+                    rec.prove(f"refusal-identity[{k_}]", z3.And(c_ > 0, v_ * c_ == n_), replay=rp, key=key, timeout_ms=60000, what="the variance tested against tol is not the mean squared residual over observed entries")
+                rec.prove("refusal", z3.Or(*[v_ < T.real_val(TOL_NOISE) for v_ in vars_]), replay=rp, key=key, timeout_ms=60000, what="noise update refused although the mean squared residual over observed entries is >= tol")
             else:
                 got = st.to_terms(res).reshape(-1)
                 for k, e in enumerate(earr):
